@@ -7,6 +7,38 @@ ID = "C44"
 PROP_MODULE = "SquidModel.Properties.C44"
 MODEL = "c44"
 GEN = []
+RULE = ("one line = one configuration (synthetic leaf ACLs, all-of/any-of groups written as acl directives, allow/deny rules; all of it "
+        "goes through the real ConfigParser, Acl::Node::ParseNamedAcl, AllOf::parse, AnyOf::parse, InnerNode::lineParse and "
+        "aclParseAccessLine) + 1..4 checklists over it (nonBlockingCheck or fastCheck, per-leaf truth value, per-leaf list of lookups "
+        "that complete later or inside the starter, banned actions) + a schedule that interleaves the checklists' starts and lookup "
+        "completions. Generators: random rule lists per the quantifier text (1..6 rules, 0..4 ACLs, negations, nested groups), "
+        "boundary cases (0 rules, rules without ACLs in both construction modes, 5/6/7/8 lookups in a row that complete inside the "
+        "starter, fast checks over slow leaves, everything banned, multi-line all-of), exhaustive small scopes (every list of <=2 rules "
+        "of <=2 possibly negated ACLs over 2 leaves x every truth assignment x every sync/deferred/immediate mask; every "
+        "interleaving of two checklists on small lists), byte-level mutations of valid lines. "
+        "non-trivial = at least one checklist answered from a rule list with at least one rule; distinct = distinct lines")
+TRUSTED = ["the synthetic leaf ACL (harness/c44.cc SynthLeaf) and its model (leafMatch/leafLoop/starter) are harness code, not squid code: "
+           "they follow the calling convention of the real slow ACLs (goAsync(starter) -> return -1; re-evaluated after the resume)",
+           "cbdata and ACLFilledChecklist construction are replaced by minimal harness versions (registry with lock counts; no transaction state)",
+           "a node object that is used in several places is modelled by copies (the model is a tree, squid's structure a DAG)"]
+ASSUMPTIONS = ["the caller of the check stays alive (callerGone() is false)",
+               "leaf ACLs have a fixed truth value per checklist and finitely many lookups; a leaf never needs more than 6 lookups in a row "
+               "that complete before goAsync() returns (the 7th is refused by the async-loop protection of goAsync: proved and observed)",
+               "banned actions do not change while a check is suspended"]
+MANIFEST = {
+    "text": "full: for every rule list, every assignment of truth values, lookups (any number, completing later or immediately) and banned "
+            "actions to any number of checklists, and every interleaving of their starts and lookup completions, each checklist's callback "
+            "receives the action of the first non-banned rule whose ACLs all match (negations, all-of/any-of groups, exception leaves), else "
+            "the opposite of the last rule's action marked implicit, else DUNNO for an empty list; no modelled assertion fails; every "
+            "schedule ends (theorems interleaved_checklists_independent, async_eq_sync, answer_eq_reference, implicit_answer, "
+            "fast_eq_reference, schedule_terminates). Hypothesis, shown necessary: no leaf needs 7 lookups in a row that complete inside "
+            "goAsync (theorem loop_limit_counterexample). The real code runs the same scenarios under ASan/UBSan; answers, tree shapes and the "
+            "global order of leaf evaluations are compared with the model, answers also with an independent first-match evaluator",
+    "note": "trusted: Lean kernel, the harness's synthetic leaves / cbdata / checklist construction, python oracle. Modelled, not verified: "
+            "node sharing (DAG) is modelled by copying; callerGone, fastCheck(list), lastCheckedName are not modelled",
+    "technique": "Lean 4 proof (mutual structural induction over the ACL tree with a resumption specification, invariant over interleaved "
+                 "checklists) + ASan/UBSan differential run with exhaustive small scopes",
+}
 
 UNDER_TEST = ["src/acl/Checklist.cc", "src/acl/Tree.cc", "src/acl/BoolOps.cc", "src/acl/InnerNode.cc",
               "src/acl/AllOf.cc", "src/acl/AnyOf.cc", "src/acl/Acl.cc", "src/acl/Gadgets.cc"]
@@ -29,3 +61,479 @@ def build_exe(stage):
 
 def build(stage):
     return ProcHarness([build_exe(stage)], env={"UBSAN_OPTIONS": "print_stacktrace=0:halt_on_error=1:exitcode=86"})
+
+
+# ------------------------------------------------------------------------------------------------ scenario <-> line
+# scenario = dict(mode, nleaves, groups=[(kind, [line,...])], rules=[(act, line)], checks=[dict(kind, banned, leaves=[(val, rounds, styleB)])],
+#                 sched=[int])   line = [(neg, isgroup, idx)]
+
+def fmt_line(items):
+    return ",".join(("!" if n else "") + ("g%d" % i if g else "%d" % i) for n, g, i in items)
+
+
+def fmt(sc):
+    groups = ";".join("%s=%s" % (k, "|".join(fmt_line(l) for l in lines)) for k, lines in sc["groups"]) or "_"
+    rules = ";".join(a + fmt_line(l) for a, l in sc["rules"]) or "_"
+    checks = ";".join("%s%s:%s" % (c["kind"], c["banned"], ",".join(v + r + ("!" if b else "") for v, r, b in c["leaves"]))
+                      for c in sc["checks"]) or "_"
+    sched = ",".join(str(k) for k in sc["sched"]) or "_"
+    return "%s %d %s %s %s %s" % (sc["mode"], sc["nleaves"], groups, rules, checks, sched)
+
+
+class Bad(Exception):
+    pass
+
+
+def _num(s):
+    if not s or len(s) > 6 or not s.isdigit() or not s.isascii():
+        raise Bad()
+    return int(s)
+
+
+def parse_items(s, nleaves, ngroups):
+    if s == "":
+        return []
+    out = []
+    for it in s.split(","):
+        neg = it.startswith("!")
+        if neg:
+            it = it[1:]
+        if it.startswith("g"):
+            i = _num(it[1:])
+            if i >= ngroups:
+                raise Bad()
+            out.append((neg, True, i))
+        else:
+            i = _num(it)
+            if i >= nleaves:
+                raise Bad()
+            out.append((neg, False, i))
+    return out
+
+
+def parse(line):
+    """-> scenario dict; raises Bad for what the harness calls bad-op"""
+    w = [x for x in line.split(" ") if x]
+    if len(w) != 6 or w[0] not in ("P", "D"):
+        raise Bad()
+    nleaves = _num(w[1])
+    if nleaves > 64:
+        raise Bad()
+    groups = []
+    if w[2] != "_":
+        for g in w[2].split(";"):
+            if len(g) < 2 or g[0] not in "ao" or g[1] != "=":
+                raise Bad()
+            groups.append((g[0], [parse_items(l, nleaves, len(groups)) for l in g[2:].split("|")]))
+    rules = []
+    if w[3] != "_":
+        for r in w[3].split(";"):
+            if not r or r[0] not in "+-":
+                raise Bad()
+            rules.append((r[0], parse_items(r[1:], nleaves, len(groups))))
+    checks = []
+    if w[4] != "_":
+        for c in w[4].split(";"):
+            colon = c.find(":")
+            if colon < 1 or c[0] not in "nf" or any(ch not in "+-" for ch in c[1:colon]):
+                raise Bad()
+            rest = c[colon + 1:]
+            leaves = []
+            if not (rest == "" and nleaves == 0):
+                for l in rest.split(","):
+                    if not l or l[0] not in "tfxy":
+                        raise Bad()
+                    k = 1
+                    while k < len(l) and l[k] in "di":
+                        k += 1
+                    style = l[k:] == "!"
+                    if l[k:] not in ("", "!"):
+                        raise Bad()
+                    leaves.append((l[0], l[1:k], style))
+            if len(leaves) != nleaves:
+                raise Bad()
+            checks.append({"kind": c[0], "banned": c[1:colon], "leaves": leaves})
+    sched = []
+    if w[5] != "_":
+        sched = [_num(k) for k in w[5].split(",")]
+    return {"mode": w[0], "nleaves": nleaves, "groups": groups, "rules": rules, "checks": checks, "sched": sched}
+
+
+# ------------------------------------------------------------------------------------------------ the direct oracle
+class Stop(Exception):
+    def __init__(self, code):
+        self.code = code
+
+
+class OutOfScope(Exception):
+    pass
+
+
+def goasync_calls_ok(rounds):
+    """no evaluation of the leaf needs a 7th goAsync() call: 6 lookups completing inside the starter may only be the last ones"""
+    run = 0
+    for k, r in enumerate(rounds):
+        if r == "i":
+            run += 1
+            if run >= 6 and k + 1 < len(rounds):
+                return False
+        else:
+            run = 0
+    return True
+
+
+def reference(sc, ck):
+    """The property, written from its text: the action of the first rule whose ACLs all match (negations applied, all-of = some line has
+    all its ACLs matching, any-of = some ACL matches), else the opposite of the last rule's action, else U for an empty list.
+    Evaluation is left to right and lazy, which only matters for leaves that end the check with an exception (x, y) and for the scope:
+    a leaf that the lazy evaluation visits and whose lookups goAsync() refuses puts the case outside the property's scope."""
+    leaves = ck["leaves"]
+    fast = ck["kind"] == "f"
+
+    def leaf(i):
+        v, rounds, _ = leaves[i]
+        if rounds and (fast or not goasync_calls_ok(rounds)):
+            raise OutOfScope()
+        if v == "t":
+            return True
+        if v == "f":
+            return False
+        raise Stop("U" if v == "x" else "R")
+
+    def item(it):
+        neg, isg, i = it
+        v = group(i) if isg else leaf(i)
+        return (not v) if neg else v
+
+    def conj(items):
+        for it in items:
+            if not item(it):
+                return False
+        return True
+
+    def group(k):
+        kind, lines = sc["groups"][k]
+        if kind == "a":
+            for l in lines:
+                if conj(l):
+                    return True
+            return False
+        for l in lines:
+            for it in l:
+                if item(it):
+                    return True
+        return False
+
+    rules = [r for r in sc["rules"] if not (sc["mode"] == "P" and not r[1])]   # aclParseAccessLine: "contains no ACL's, skipping"
+    try:
+        for act, items in rules:
+            if act in ck["banned"]:
+                continue
+            if conj(items):
+                return ("A" if act == "+" else "D"), len(rules)
+    except Stop as e:
+        return e.code, len(rules)
+    if not rules:
+        return "U*", 0
+    return ("Di" if rules[-1][0] == "+" else "Ai"), len(rules)
+
+
+def oracle(line, impl):
+    if impl.startswith("abort:") or impl.startswith("harness-inconsistency"):
+        return "abort/inconsistency: " + impl[:200]
+    try:
+        sc = parse(line)
+    except Bad:
+        return None if impl == "bad-op" else "harness accepted a malformed line: " + impl[:80]
+    if impl.startswith("reject:") or impl == "bad-op":
+        return "harness refused a well-formed scenario: " + impl
+    parts = impl.split(" ")
+    if len(parts) != 4 or not parts[0].startswith("r="):
+        return "unparsable output " + impl[:120]
+    answers = [] if parts[2] == "_" else parts[2].split(";")
+    if len(answers) != len(sc["checks"]):
+        return "number of answers differs from the number of checklists"
+    for k, (ck, got) in enumerate(zip(sc["checks"], answers)):
+        if got in ("", "idle", "paused") or got[0] not in "ADUR":
+            return "checklist %d never answered: %s" % (k, got)
+        try:
+            want, nrules = reference(sc, ck)
+        except OutOfScope:
+            continue
+        if parts[0] != "r=%d" % nrules:
+            return "the tree has %s rules, the configuration %d" % (parts[0], nrules)
+        if want == "U*":
+            if got not in ("U", "Ui"):
+                return "checklist %d: empty rule list answered %s, neither-allow-nor-deny expected" % (k, got)
+        elif got != want:
+            return "checklist %d answered %s, first-match evaluation gives %s" % (k, got, want)
+    return None
+
+
+def compare(line, impl, model):
+    return impl == model
+
+
+def nontrivial(line, impl, model):
+    return impl.startswith("r=") and not impl.startswith("r=0 ") and " _ " not in impl
+
+
+def tag(line, impl, model):
+    if not impl.startswith("r="):
+        return impl.split(":")[0][:24]
+    try:
+        sc = parse(line)
+    except Bad:
+        return "malformed?"
+    parts = impl.split(" ")
+    nas = sum(1 for c in sc["checks"] for l in c["leaves"] if l[1])
+    pauses = parts[3].count("~") if len(parts) > 3 else 0
+    return "%s rules=%s cls=%d %s %s" % (sc["mode"], parts[0][2:] if int(parts[0][2:]) < 3 else "3+", len(sc["checks"]),
+                                          "async" if nas else "sync", "paused" if pauses else "straight")
+
+
+def classify(line, impl, why):
+    return None
+
+
+# ------------------------------------------------------------------------------------------------ generators
+def rand_items(rng, nleaves, ngroups, maxn=4):
+    n = rng.choice([0, 1, 1, 2, 2, 2, 3, 3, 4][:2 * maxn + 1]) if maxn < 4 else rng.choice([0, 1, 1, 2, 2, 2, 3, 3, 4])
+    items = []
+    for _ in range(n):
+        if ngroups and rng.chance(1, 3):
+            items.append((rng.chance(1, 3), True, rng.below(ngroups)))
+        elif nleaves:
+            items.append((rng.chance(1, 3), False, rng.below(nleaves)))
+    return items
+
+
+def rand_rounds(rng, boundary=False):
+    if boundary:
+        k = rng.below(6)
+        if k == 0:
+            return "i" * rng.choice([5, 6, 7, 8])
+        if k == 1:
+            return "i" * rng.choice([5, 6]) + "d" + "i" * rng.choice([0, 5, 6])
+        if k == 2:
+            return "d" * rng.range(1, 6)
+        if k == 3:
+            return "di" * 3 + "i" * rng.below(6)
+    n = rng.choice([0, 0, 0, 1, 1, 2, 3, 5])
+    return "".join(rng.choice("ddi") for _ in range(n))
+
+
+def rand_check(rng, nleaves, boundary=False, exc=True):
+    kind = "f" if rng.chance(1, 8) else "n"
+    banned = rng.choice(["", "", "", "", "+", "-", "+-", "-+", "++"]) if rng.chance(1, 4) else ""
+    leaves = []
+    allsync = kind == "f" and rng.chance(2, 3)
+    for _ in range(nleaves):
+        v = rng.choice("tf")
+        if exc and rng.chance(1, 10):
+            v = rng.choice("xy")
+        r = "" if allsync else rand_rounds(rng, boundary)
+        leaves.append((v, r, rng.chance(1, 3)))
+    return {"kind": kind, "banned": banned, "leaves": leaves}
+
+
+def rand_sched(rng, sc):
+    n = sum(len(l[1]) + 1 for c in sc["checks"] for l in c["leaves"]) + len(sc["checks"])
+    k = rng.below(4)
+    if k == 0:
+        return []
+    if k == 1:
+        return [rng.below(4) for _ in range(rng.range(0, min(n, 40)))]
+    return [rng.below(len(sc["checks"]) or 1) for _ in range(min(n, 60))]
+
+
+def rand_scenario(rng, boundary=False, big=False):
+    nleaves = rng.range(1, 6)
+    groups = []
+    for _ in range(rng.choice([0, 0, 1, 1, 2, 3, 4] if not big else [2, 4, 6])):
+        kind = rng.choice("ao")
+        lines = [rand_items(rng, nleaves, len(groups), 3) for _ in range(rng.choice([1, 1, 2, 3]))]
+        groups.append((kind, lines))
+    rules = [(rng.choice("+-"), rand_items(rng, nleaves, len(groups))) for _ in range(rng.range(1, 6))]
+    if boundary and rng.chance(1, 4):
+        rules = rules[:rng.below(2)]
+    sc = {"mode": "D" if rng.chance(1, 4) else "P", "nleaves": nleaves, "groups": groups, "rules": rules, "checks": [], "sched": []}
+    sc["checks"] = [rand_check(rng, nleaves, boundary) for _ in range(rng.choice([1, 1, 2, 2, 3, 4]))]
+    sc["sched"] = rand_sched(rng, sc)
+    return sc
+
+
+MUT_CHARS = "PD0123456789_;,|=!+-:aognftxydi g"
+
+
+def mutate(rng, line):
+    t = list(line)
+    k = rng.below(5)
+    if k == 0 and t:
+        t[rng.below(len(t))] = rng.choice(MUT_CHARS)
+    elif k == 1:
+        t.insert(rng.below(len(t) + 1), rng.choice(MUT_CHARS))
+    elif k == 2 and t:
+        del t[rng.below(len(t))]
+    elif k == 3 and t:
+        p = rng.below(len(t))
+        t = t[:p] + t[p:p + rng.range(1, 4)] + t[p:]
+    else:
+        p = rng.below(len(t) + 1)
+        q = rng.below(len(t) + 1)
+        t = t[:min(p, q)] + t[max(p, q):]
+    return "".join(t).replace("\n", "")
+
+
+def small_lines(maxitems):
+    """every line of <= maxitems possibly negated ACLs over the leaves 0, 1"""
+    base = [(False, False, 0), (True, False, 0), (False, False, 1), (True, False, 1)]
+    out = [[]]
+    layer = [[]]
+    for _ in range(maxitems):
+        layer = [l + [b] for l in layer for b in base]
+        out += layer
+    return out
+
+
+def exhaustive_small(maxrules, maxitems, modes):
+    lines = small_lines(maxitems)
+    rules1 = [(a, l) for a in "+-" for l in lines]
+    lists = [[]]
+    layer = [[]]
+    for _ in range(maxrules):
+        layer = [rs + [r] for rs in layer for r in rules1]
+        lists += layer
+    masks = [("", "d", "i")[a] + "" for a in range(3)]
+    for rs in lists:
+        for m in modes:
+            checks = []
+            for v0 in "tf":
+                for v1 in "tf":
+                    for r0 in masks:
+                        for r1 in masks:
+                            checks.append({"kind": "n", "banned": "", "leaves": [(v0, r0, False), (v1, r1, False)]})
+            # 36 checklists per line would hide interleavings; one line per group of 4 (same truth values, different masks)
+            for k in range(0, len(checks), 4):
+                yield fmt({"mode": m, "nleaves": 2, "groups": [], "rules": rs, "checks": checks[k:k + 4], "sched": []})
+
+
+def all_schedules(n, length):
+    if length == 0:
+        yield []
+        return
+    for k in range(n):
+        for rest in all_schedules(n, length - 1):
+            yield [k] + rest
+
+
+def interleavings(rng, count):
+    """two or three checklists with different truth values over one list, every schedule of the first steps"""
+    for _ in range(count):
+        sc = rand_scenario(rng)
+        n = rng.choice([2, 2, 3])
+        sc["checks"] = [rand_check(rng, sc["nleaves"], exc=False) for _ in range(n)]
+        for c in sc["checks"]:
+            c["kind"] = "n"
+            c["leaves"] = [(v, r if r else rng.choice(["", "d", "dd", "di"]), b) for v, r, b in c["leaves"]]
+        for s in all_schedules(n, 4 if n == 2 else 3):
+            sc["sched"] = s
+            yield fmt(sc)
+
+
+FIXED = [
+    "P 0 _ _ n:;f: _", "D 0 _ _ n:;f: _", "P 1 _ + n:t;f:t _", "D 1 _ + n:t;f:t _", "D 1 _ -;+0 n:t;f:f _", "P 1 _ -;+0 n:f;f:f _",
+    "P 1 _ +0 n:tiiiii;n:tiiiiii;n:tiiiiiii;n:tiiiiiii! _", "P 1 _ +0 n:tiiiiiid;n:tiiiiid;n:tdiiiiii;n:tdiiiiiii 3,2,1,0",
+    "P 1 _ +0 f:td;f:td!;f:t;f:f _", "P 1 a=|0 +g0;-!g0 n:f;n:td _", "P 2 a=0|1|!0,!1 -g0;+!g0 n:t,f;n:fd,fi;n:f,t 2,1,0,0,1",
+    "P 2 o=|0||1 -g0;+!g0 n:t,f;n:fd,fi;n:f,t 2,1,0,0,1", "P 2 _ +0;-1 n+:t,t;n-:t,t;n+-:t,t;f+:t,t;n-:f,f _",
+    "P 2 _ -!0,1 n:y,t;n:xd,t;n:td,y;n:fd,yd 0,1,2,3,3,2,1,0", "P 3 o=0,1;a=!g0|2 +g1;-!2 n:t,fd,tdi;n+:f,f,t 0,1,1,0",
+    "P 2 a=0;a=g0;a=g1;o=g2,!g2 +g3;-1 n:fd,t;n:td,f 1,0,1,0", "P 2 _ +0,0,0,0;-!0,!0 n:tddd,f;n:fdid,t 1,1,0,0,1,0",
+]
+
+
+def cases(rng, tier):
+    thorough = tier == "thorough"
+    for l in FIXED:
+        yield l
+    # exhaustive small scopes
+    if thorough:
+        yield from exhaustive_small(2, 2, ["P"])
+        yield from exhaustive_small(1, 2, ["D"])
+    else:
+        yield from exhaustive_small(1, 2, ["P", "D"])
+        yield from exhaustive_small(2, 1, ["P"])
+    yield from interleavings(rng.fork("inter"), 60 if thorough else 8)
+    n = 40000 if thorough else 2500
+    last = FIXED[0]
+    for i in range(n):
+        k = rng.below(10)
+        if k < 6:
+            last = fmt(rand_scenario(rng))
+            yield last
+        elif k < 8:
+            last = fmt(rand_scenario(rng, boundary=True, big=rng.chance(1, 5)))
+            yield last
+        else:
+            yield mutate(rng, last)
+
+
+def exhaustive(tier):
+    return True
+
+
+# ------------------------------------------------------------------------------------------------ shrinking
+def shrink(line):
+    try:
+        sc = parse(line)
+    except Bad:
+        for i in range(len(line)):
+            yield line[:i] + line[i + 1:]
+        return
+
+    def variant(**kw):
+        d = dict(sc)
+        d.update(kw)
+        return fmt(d)
+    for i in range(len(sc["checks"])):
+        yield variant(checks=sc["checks"][:i] + sc["checks"][i + 1:])
+    for i in range(len(sc["rules"])):
+        yield variant(rules=sc["rules"][:i] + sc["rules"][i + 1:])
+    if sc["sched"]:
+        yield variant(sched=[])
+        yield variant(sched=sc["sched"][:-1])
+        yield variant(sched=sc["sched"][1:])
+    for i, (a, items) in enumerate(sc["rules"]):
+        for j in range(len(items)):
+            yield variant(rules=sc["rules"][:i] + [(a, items[:j] + items[j + 1:])] + sc["rules"][i + 1:])
+        for j, (neg, g, idx) in enumerate(items):
+            if neg:
+                yield variant(rules=sc["rules"][:i] + [(a, items[:j] + [(False, g, idx)] + items[j + 1:])] + sc["rules"][i + 1:])
+    for i, (k, lines) in enumerate(sc["groups"]):
+        for j in range(len(lines)):
+            if len(lines) > 1:
+                yield variant(groups=sc["groups"][:i] + [(k, lines[:j] + lines[j + 1:])] + sc["groups"][i + 1:])
+            for m in range(len(lines[j])):
+                nl = lines[:j] + [lines[j][:m] + lines[j][m + 1:]] + lines[j + 1:]
+                yield variant(groups=sc["groups"][:i] + [(k, nl)] + sc["groups"][i + 1:])
+    if sc["groups"]:
+        last = len(sc["groups"]) - 1
+        used = any(g and idx == last for _, items in sc["rules"] for _, g, idx in items)
+        if not used:
+            yield variant(groups=sc["groups"][:-1])
+    for i, c in enumerate(sc["checks"]):
+        for j, (v, r, b) in enumerate(c["leaves"]):
+            alts = []
+            if r:
+                alts += [(v, r[:-1], b), (v, r[1:], b), (v, "", b)]
+            if b:
+                alts.append((v, r, False))
+            for alt in alts:
+                c2 = dict(c)
+                c2["leaves"] = c["leaves"][:j] + [alt] + c["leaves"][j + 1:]
+                yield variant(checks=sc["checks"][:i] + [c2] + sc["checks"][i + 1:])
+        if c["banned"]:
+            c2 = dict(c)
+            c2["banned"] = c["banned"][:-1]
+            yield variant(checks=sc["checks"][:i] + [c2] + sc["checks"][i + 1:])
+    if sc["mode"] == "D":
+        yield variant(mode="P")
